@@ -1389,10 +1389,10 @@ def check_simulate_do_impossible(case):
         for i, s in enumerate(spec["states"][v]):
             if all(x == 0 for x in spec["cpd"][v]["table"][i]):
                 try:
-                    with _time_limit(5):
+                    with _time_limit(3):
                         df = m.simulate(n_samples=3, do={v: s}, show_progress=False, seed=1, include_latents=True)
                 except _Hang:
-                    return {"key": "simulate:do-impossible-state:does-not-terminate", "what": f"simulate(n_samples=3, do={{{v!r}: {s!r}}}) did not return within 5 s: "
+                    return {"key": "simulate:do-impossible-state:does-not-terminate", "what": f"simulate(n_samples=3, do={{{v!r}: {s!r}}}) did not return within 3 s: "
                             f"the do-variable is sampled from its observational CPD (P={[str(x) for x in spec['cpd'][v]['table'][i]]}) and rejected"}
                 except Exception as e:  # noqa
                     return {"key": "simulate:do-impossible-state:raised", "what": f"simulate(n_samples=3, do={{{v!r}: {s!r}}}) raised {type(e).__name__}: {e}"}
@@ -1446,5 +1446,5 @@ def groups(tier):
               bound=b + " (3 variants); 7 seeded combinations of do / evidence / virtual evidence per model; do-states restricted to states with positive "
                         "observational mass (the complement is group simulate_do_impossible)"),
         Group("simulate_do_impossible", gen_do_impossible, check_simulate_do_impossible, lambda c: True, engine="E3",
-              bound="<= 8 (40) models <= 3 nodes having a state of probability zero in every column; 5 s time limit"),
+              bound="<= 8 (40) models <= 3 nodes having a state of probability zero in every column; 3 s time limit"),
     ]
